@@ -53,6 +53,10 @@ TrueDiv(n, d) == IF d = 0 THEN Zde
 AsInt(x) == IF x.t = "bool" THEN FromInt(IF x.b THEN 1 ELSE 0) ELSE x.v     \* Python: bool is an int
 IsIntLike(x) == x.t \in {"int", "bool"}
 AsFloat(x) == IF x.t = "float" THEN x ELSE FOfInt(AsInt(x))
+\* unary operators
+UVal(op, a) ==
+  CASE op = "neg" -> (IF a.t = "float" THEN (IF a.m = 0 THEN Skip ELSE FNeg(a)) ELSE VInt(Neg(AsInt(a))))
+    [] op = "not" -> (IF a.t = "bool" THEN VBool(~a.b) ELSE Skip)
 Truth(x) == CASE x.t = "bool" -> x.b [] x.t = "int" -> x.v.mag # <<>> [] x.t = "float" -> x.m # 0
 
 ArithOps == {"+", "-", "*", "//", "%", "**", "/"}
@@ -84,6 +88,19 @@ Val(op, a, b) ==
             CASE op = "+" -> FAdd(x, y)
               [] op = "-" -> FAdd(x, FNeg(y))
               [] op = "*" -> IF (x.m = 0 \/ y.m = 0) /\ (x.m < 0 \/ y.m < 0) THEN Skip ELSE FMul(x, y)   \* -0.0
+              [] op \in {"%", "//"} ->
+                   \* bring both to the denominator 2^e: x = p/2^e, y = q/2^e; then x mod y = (p mod q)/2^e
+                   \* and floor(x/y) = p div q with Python's integer floor semantics (sign of the divisor)
+                   IF y.m = 0 THEN Zde
+                   ELSE LET e == IF x.e > y.e THEN x.e ELSE y.e
+                            p == x.m * Pow2(e - x.e)
+                            q == y.m * Pow2(e - y.e)
+                            aq == IF q < 0 THEN -q ELSE q
+                            \* TLC's \div and % floor towards minus infinity for a positive divisor
+                            qq == IF q > 0 THEN p \div q ELSE (-p) \div aq
+                            rr == IF q > 0 THEN p % q ELSE -((-p) % aq)
+                        IN IF op = "//" THEN (IF qq = 0 /\ ((p < 0) # (q < 0)) THEN Skip ELSE NormF(qq, 0))
+                           ELSE (IF rr = 0 /\ q < 0 THEN Skip ELSE NormF(rr, e))     \* -0.0 results are outside the model
               [] OTHER -> Skip
        ELSE Skip
 
